@@ -103,9 +103,8 @@ def configs(tier):
                     continue
                 for ff in ("off", "inner", "outer"):
                     if ff == "outer" and ws and ws[-1] not in FORWARDS_FAILFAST:
-                        continue
-                    if ff == "outer" and any(w not in FORWARDS_FAILFAST for w in ws):
-                        # the setting has to be forwarded by every layer down to the results
+                        # only MultiTestResult / ExtendedToOriginalDecorator implement failfast
+                        # themselves (they stop on a bad outcome whatever sits below them)
                         continue
                     out.append((leaf, ws, ff))
     out.append(("etsd", (), "off"))
@@ -385,6 +384,10 @@ def run_shard(shard, tier, seed):
         depth = 8
     sysm = System(config, 2 if tier == "quick" else 3)
     bfs(sysm, depth, res, label=repr(config), sample_every=2003)
+    reached = res.notes.get("max_depth", 0)
+    if reached < min(depth, 6) and not res.violations:
+        raise AssertionError("C04 exploration of %r stopped at depth %r" % (config, reached))
+    res.notes["neg_min_depth_reached"] = -reached
     res.notes["depth"] = depth
     return res
 
